@@ -316,6 +316,10 @@ fn push_units(units: &mut Vec<Unit>, set_idx: usize, info: &SetInfo, t: &Tuple, 
         // boundary: every message and context bit, rho, and every third t1 bit (all ten bit
         // positions of the 10-bit fields are visited)
         vec![(Artefact::Msg, 0, mb, 1), (Artefact::Ctx, 0, art_bits(info, t, Artefact::Ctx), 1), (Artefact::Pk, 0, 256, 1), (Artefact::Pk, 256, 8 * info.pk_len, 3)]
+    } else if stratum == "counts" {
+        // only the k count bytes of the hint section, on many signatures: a defect that shows only on a
+        // signature using exactly omega hints (a fraction of a percent of signatures) needs the volume
+        vec![(Artefact::Sig, 8 * (info.sig_len - info.k), 8 * info.sig_len, 1)]
     } else if stratum == "hugemsg" {
         // a message longer than 64 KiB: head, tail (the trailing partial blocks of every pre-hash) and a thin sample
         vec![(Artefact::Msg, 0, 128, 1), (Artefact::Msg, mb.saturating_sub(2400), mb, 1), (Artefact::Msg, 128, mb.saturating_sub(2400), 4099)]
@@ -350,6 +354,7 @@ pub fn run(ctx: &Ctx) -> i32 {
     let mut n_hint = 0u64;
     let mut n_long = 0u64;
     let mut n_aligned = 0u64;
+    let mut n_counts = 0u64;
     let mut n_huge = 0u64;
     for (si, set) in all.iter().enumerate() {
         let info = set.info();
@@ -397,6 +402,19 @@ pub fn run(ctx: &Ctx) -> i32 {
                 push_units(&mut units, si, info, &t, "longmsg");
                 n_long += 1;
             }
+        }
+        for v in 0..hint_per_set * 12 {
+            let mut p = Prng::for_run(ctx.seed, &format!("c05-counts-{}", info.name), v);
+            let t = Tuple {
+                mode: *p.pick(&MODES),
+                xi: p.array32(),
+                rnd: p.array32(),
+                msg: { let n = 1 + p.usize_below(16); p.bytes(n) },
+                ctx: vec![],
+                prov: *p.pick(&provs),
+            };
+            push_units(&mut units, si, info, &t, "counts");
+            n_counts += 1;
         }
         for v in 0..hint_per_set {
             let mut p = Prng::for_run(ctx.seed, &format!("c05-hint-{}", info.name), v);
@@ -460,7 +478,7 @@ pub fn run(ctx: &Ctx) -> i32 {
         level: "fault_enumeration",
         evaluations: evals,
         signatures: sigs.into_iter().collect(),
-        rule: "For each seeded honest tuple (set, mode, xi, rnd, message, context, verifier-key provenance) that verifies: stratum `full` flips EVERY bit of the signature, of the serialised public key, of the message and of the context, one at a time; stratum `aligned` uses context/message lengths at which a slice boundary of the absorbed stream falls on a SHAKE256 block boundary (every message and context bit, rho, every third t1 bit); stratum `hugemsg` flips head, tail and a thin sample of a message longer than 64 KiB; stratum `longmsg` flips every bit of a multi-block message (1100 bytes quick, 5000 thorough); stratum `hint` flips every bit of the commitment hash and of the whole hint section (index bytes, zero padding, count bytes) on many more signatures. Oracle: verification returns false (a public key that no longer deserialises counts as rejected; a panic counts as not returning false). A case is distinct by (set, mode, provenance, artefact, region of the flipped bit, whether a restated Algorithm 21 says the flip is rejected by decoding or only by the commitment hash, message/context length class).".into(),
+        rule: "For each seeded honest tuple (set, mode, xi, rnd, message, context, verifier-key provenance) that verifies: stratum `full` flips EVERY bit of the signature, of the serialised public key, of the message and of the context, one at a time; stratum `aligned` uses context/message lengths at which a slice boundary of the absorbed stream falls on a SHAKE256 block boundary (every message and context bit, rho, every third t1 bit); stratum `hugemsg` flips head, tail and a thin sample of a message longer than 64 KiB; stratum `longmsg` flips every bit of a multi-block message (1100 bytes quick, 5000 thorough); stratum `counts` flips every bit of the k count bytes on twelve times as many signatures again (a defect confined to signatures with exactly omega hints needs the volume); stratum `hint` flips every bit of the commitment hash and of the whole hint section (index bytes, zero padding, count bytes) on many more signatures. Oracle: verification returns false (a public key that no longer deserialises counts as rejected; a panic counts as not returning false). A case is distinct by (set, mode, provenance, artefact, region of the flipped bit, whether a restated Algorithm 21 says the flip is rejected by decoding or only by the commitment hash, message/context length class).".into(),
         samples,
         exhaustive: false,
         extra: json!({
@@ -469,9 +487,10 @@ pub fn run(ctx: &Ctx) -> i32 {
             "tuples_hint_stratum": n_hint,
             "tuples_long_message_stratum": n_long,
             "tuples_block_aligned_stratum": n_aligned,
+            "tuples_count_bytes_stratum": n_counts,
             "tuples_huge_message_stratum": n_huge,
             "tuples_unverifiable_skipped": unverifiable,
-            "runs": n_full + n_hint + n_long + n_aligned + n_huge,
+            "runs": n_full + n_hint + n_long + n_aligned + n_huge + n_counts,
             "runs_per_hour": if wall > 0.0 { ((n_full + n_hint) as f64 / wall * 3600.0) as u64 } else { 0 },
             "faults_fired": {"bitflip": evals},
             "faults_configured": {"bitflip": evals},
